@@ -446,6 +446,92 @@ theorem C12_birth_lognormal_model {e y : Rat} (h : birthLogNormal e = some y) : 
   · simp only [Option.some.injEq] at h; subst h; assumption
   · simp at h
 
+/-! ## The rejection loops never give up (long streaks of rejected draws)
+
+The loops of the real code (`while newpt not in self`, `while not inbnds`, `while dx == 0`,
+`while abs(newpt) > self._halfwidth`, `while True: ... if out in self: return out`) have no cap on
+the number of draws.  The theorems above say that what a jump *returns* is in the domain; they
+would also hold for a loop that stops after some number of draws.  The theorems of this section
+say that the model's loops do not: for every number of parameters and streaks of rejected values
+of ANY length at every position, the jump returns the first accepted value of each loop and
+consumes exactly the values up to it (the unconsumed `rest` is handed back), the only condition
+being that the fuel (the harness passes more than the number of draws) exceeds the longest
+streak.  The harness holds the real loops against this with streaks of 99..250001 draws
+(`harness/domain.py`, `gen_streaks`). -/
+
+/-- `BoundedNormal._jump`: each parameter's loop skips its whole streak of values outside the
+    closed interval and takes the first one inside. -/
+theorem C12_rejection_streak_bounded {boxes : List Box} {x : List Rat} {fuel : Nat}
+    {ps : List (List Rat × Rat)} (rest : List Rat) (hx : allIn boxes x = true)
+    (h : List.Forall₂ (fun (b : Box) (p : List Rat × Rat) =>
+        (∀ d ∈ p.1, ¬ (b.lo ≤ d ∧ d ≤ b.hi)) ∧ (b.lo ≤ p.2 ∧ p.2 ≤ b.hi) ∧ p.1.length < fuel)
+      boxes ps) :
+    bnJump boxes x fuel (streakStream ps rest) = .ok (ps.map Prod.snd) rest := by
+  have h' := bnLoop_streaks (rest := rest) (h.imp (fun b p ⟨h1, h2, h3⟩ =>
+    (⟨fun d hd => by rw [← Bool.not_eq_true, Box.contains_iff]; exact h1 d hd,
+      Box.contains_iff.mpr h2, h3⟩ :
+      (∀ d ∈ p.1, b.contains d = false) ∧ b.contains p.2 = true ∧ p.1.length < fuel)))
+  simp [bnJump, hx, h']
+
+/-- `BoundedDiscrete._jump`: each parameter's loop skips every draw its acceptance test
+    (`DBox.accepts`: integer image inside the integer bounds and, unless successive jumps are
+    allowed, not a zero step) rejects, and proposes the integer image of the first accepted one. -/
+theorem C12_rejection_streak_bounded_discrete {boxes : List DBox} {x : List Rat} {fuel : Nat}
+    {ps : List (List Rat × Rat)} (rest : List Rat)
+    (hx : allIn (boxes.map DBox.box) x = true) (hl : x.length = boxes.length)
+    (h : List.Forall₂ (fun (bx : DBox × Rat) (p : List Rat × Rat) =>
+        (∀ d ∈ p.1, bx.1.accepts (truncZ bx.2) d = false) ∧ bx.1.accepts (truncZ bx.2) p.2 = true ∧
+          p.1.length < fuel) (boxes.zip x) ps) :
+    bdJump boxes x fuel (streakStream ps rest) =
+      .ok (List.zipWith (fun (bx : DBox × Rat) (p : List Rat × Rat) =>
+        truncZ bx.2 + dstep bx.1.succ p.2) (boxes.zip x) ps) rest := by
+  simp [bdJump, hx, bdLoop_streaks (rest := rest) hl h]
+
+/-- `NormalDiscrete._jump`: without successive jumps a parameter skips every draw that is exactly
+    zero, however many there are (with successive jumps there is no loop: the streak is empty). -/
+theorem C12_rejection_streak_discrete {succ : List Bool} {x : List Rat} {fuel : Nat}
+    {ps : List (List Rat × Rat)} (rest : List Rat) (hl : x.length = succ.length)
+    (h : List.Forall₂ (fun (s : Bool) (p : List Rat × Rat) =>
+        (∀ d ∈ p.1, s = false ∧ d = 0) ∧ (s = true ∨ p.2 ≠ 0) ∧ p.1.length < fuel) succ ps) :
+    ndJump succ x fuel (streakStream ps rest) =
+      .ok (List.zipWith (fun (sx : Bool × Rat) (p : List Rat × Rat) => truncZ sx.2 + dstep sx.1 p.2)
+        (succ.zip x) ps) rest := by
+  have h' := ndLoop_streaks (rest := rest) hl (h.imp (fun s p ⟨h1, h2, h3⟩ =>
+    (⟨fun d hd => by obtain ⟨rfl, rfl⟩ := h1 d hd; simp [ndOk],
+      by rcases h2 with rfl | h2 <;> simp [ndOk, *], h3⟩ :
+      (∀ d ∈ p.1, ndOk s d = false) ∧ ndOk s p.2 = true ∧ p.1.length < fuel)))
+  simp [ndJump, h']
+
+/-- `Angular._jump`: each parameter's loop skips every draw beyond the half width and wraps the
+    first one within it. -/
+theorem C12_rejection_streak_angular {c : AngCfg} {x : List Rat} {fuel : Nat}
+    {ps : List (List Rat × Rat)} (rest : List Rat)
+    (h : List.Forall₂ (fun (_ : Rat) (p : List Rat × Rat) =>
+        (∀ d ∈ p.1, ¬ rabs d ≤ c.h) ∧ rabs p.2 ≤ c.h ∧ p.1.length < fuel) x ps) :
+    angJump c x fuel (streakStream ps rest) =
+      .ok (List.zipWith (fun (xi : Rat) (p : List Rat × Rat) => wrap c (p.2 + xi * c.invf) * c.f) x ps)
+        rest := by
+  simp [angJump, angLoop_streaks (rest := rest) h]
+
+/-- `BoundedEigenvector._jump` (one loop): every candidate outside the box (beyond the tolerance)
+    is skipped; the first one inside is returned, having tested `streak + 1` candidates. -/
+theorem C12_rejection_streak_eigen {boxes : List Box} {x : List Rat} {fuel : Nat}
+    (pre : List (List Rat)) (c : List Rat) (rest : List (List Rat))
+    (hx : allInTol boxes x = true) (hpre : ∀ e ∈ pre, allInTol boxes e = false)
+    (hc : allInTol boxes c = true) (hf : pre.length < fuel) :
+    beJump boxes x fuel (pre ++ c :: rest) = .ok c (pre.length + 1) := by
+  simp [beJump, hx, beFirst_streak (rest := rest) hc pre fuel hpre hf]
+
+/-- ... and a loop whose stream holds no acceptable value returns nothing -- never the last
+    rejected value, never the start point: the model has no "give up" branch. -/
+theorem C12_rejection_all_rejected_starves {b : Box} {bs : List Box} {x : List Rat} {fuel : Nat}
+    {draws : List Rat} (hx : allIn (b :: bs) x = true)
+    (h : ∀ d ∈ draws, ¬ (b.lo ≤ d ∧ d ≤ b.hi)) :
+    bnJump (b :: bs) x fuel draws = .starved := by
+  have := firstIn_all_rejected (ok := b.contains) draws fuel
+    (fun d hd => by rw [← Bool.not_eq_true, Box.contains_iff]; exact h d hd)
+  simp [bnJump, hx, bnLoop, this]
+
 /-! ## Non-vacuity: concrete jumps that return, refuse, starve, wrap and hit the pole -/
 
 -- two parameters; the first draw of each loop is rejected (17.1 > 1; 3.0002 > 3)
@@ -514,5 +600,52 @@ example : poleOracle.acosG = none ∧ (∀ s, saJump ⟨3, 1/60, 60⟩ ⟨false,
   simp
 example : birthUniform ⟨-1, 3⟩ (1/4) = 0 := by decide +kernel
 example : birthLogNormal 0 = none ∧ birthLogNormal (1/2) = some (1/2) := by decide +kernel
+
+-- rejection streaks: 65536 rejected values for the first parameter, 999 for the second
+example : bnJump [⟨0, 1⟩, ⟨-2, 3⟩] [1/2, 3] 100000
+    (streakStream [(List.replicate 65536 2, 1/4), (List.replicate 999 (-5/2), 3)] [7]) =
+    .ok [1/4, 3] [7] :=
+  C12_rejection_streak_bounded [7] (by decide +kernel)
+    (.cons ⟨fun d hd => by rw [List.eq_of_mem_replicate hd]; norm_num, by norm_num,
+        by rw [List.length_replicate]; decide⟩
+      (.cons ⟨fun d hd => by rw [List.eq_of_mem_replicate hd]; norm_num, by norm_num,
+        by rw [List.length_replicate]; decide⟩ .nil))
+example : bnJump [⟨0, 1⟩, ⟨-2, 3⟩] [1/2, 3] 100000 (List.replicate 65536 2) = .starved :=
+  C12_rejection_all_rejected_starves (by decide +kernel)
+    (fun d hd => by rw [List.eq_of_mem_replicate hd]; norm_num)
+-- 65536 zero draws without successive jumps, then -1/4 (floor: -1)
+example : bdJump [⟨0, 5, false⟩] [3] 70000 (streakStream [(List.replicate 65536 0, -1/4)] [9]) =
+    .ok [2] [9] := by
+  have := C12_rejection_streak_bounded_discrete (boxes := [⟨0, 5, false⟩]) (x := [3]) (fuel := 70000)
+    (ps := [(List.replicate 65536 0, -1/4)]) [9] (by decide +kernel) rfl
+    (.cons ⟨fun d hd => by rw [List.eq_of_mem_replicate hd]; decide +kernel, by decide +kernel,
+      by rw [List.length_replicate]; decide⟩ .nil)
+  rw [this]
+  decide +kernel
+example : ndJump [false, true] [3, 3] 2000 (streakStream [(List.replicate 1000 0, 1/2), ([], 5/2)] []) =
+    .ok [4, 5] [] := by
+  have := C12_rejection_streak_discrete (succ := [false, true]) (x := [3, 3]) (fuel := 2000)
+    (ps := [(List.replicate 1000 0, 1/2), ([], 5/2)]) [] rfl
+    (.cons ⟨fun d hd => ⟨rfl, List.eq_of_mem_replicate hd⟩, Or.inr (by norm_num),
+      by rw [List.length_replicate]; decide⟩
+      (.cons ⟨fun d hd => absurd hd List.not_mem_nil, Or.inl rfl, by decide⟩ .nil))
+  rw [this]
+  decide +kernel
+example : angJump ⟨1, 1/3, 3⟩ [6] 6000 (streakStream [(List.replicate 5000 2, -1/2)] [1]) =
+    .ok [9/2] [1] := by
+  have := C12_rejection_streak_angular (c := ⟨1, 1/3, 3⟩) (x := [6]) (fuel := 6000)
+    (ps := [(List.replicate 5000 2, -1/2)]) [1]
+    (.cons ⟨fun d hd => by rw [List.eq_of_mem_replicate hd]; decide +kernel, by decide +kernel,
+      by rw [List.length_replicate]; decide⟩ .nil)
+  rw [this]
+  decide +kernel
+example : beJump [⟨0, 1⟩, ⟨-2, 3⟩] [1/2, 1] 20000
+    (List.replicate 10000 [1/2, 4] ++ [1/2, 2] :: []) = .ok [1/2, 2] 10001 := by
+  have := C12_rejection_streak_eigen (boxes := [⟨0, 1⟩, ⟨-2, 3⟩]) (x := [1/2, 1]) (fuel := 20000)
+    (List.replicate 10000 [1/2, 4]) [1/2, 2] [] (by decide +kernel)
+    (fun e he => by rw [List.eq_of_mem_replicate he]; decide +kernel) (by decide +kernel)
+    (by rw [List.length_replicate]; decide)
+  rw [List.length_replicate] at this
+  exact this
 
 end Epsie.C12
